@@ -154,7 +154,12 @@ class NamespaceMixin(object):
            cxx_template -
         """
         # parse declaration to find out what it is.
-        fullast = declast.check_decl(decl, namespace=self)
+        # A block is transparent: its declarations belong to the
+        # enclosing class or namespace (constructors, destructors).
+        namespace = self
+        while isinstance(namespace, BlockNode):
+            namespace = namespace.parent
+        fullast = declast.check_decl(decl, namespace=namespace)
         template_parameters = []
         if isinstance(fullast, declast.Template):
             # Create list of template parameter names
